@@ -2,4 +2,5 @@
 EXTENDS BDDSpec
 N2 == <<"a", "b">>
 CoreActions == {"var", "ite", "drop", "gc", "swap", "dup", "dropgc"}
+No == FALSE
 ====
